@@ -30,8 +30,11 @@ TABLES = {
     "mixedcase": "41=A\n61=a\n42=B\n",
     "space": "20= \n21=a \n22=a\n",
     "leading-blank": "80= t\n81=t\n82= \n83=\tq\n84=q\n",
+    "quote": "27='\n01=a\n02=a'\n03=b\n",
 }
-QUICK_TABLES = ["single", "overlap", "multibyte", "brackets", "nested", "twobyte", "digits", "longest3", "ignore", "leading-blank"]
+# .text literals with an escaped quote (first, last, in the middle, doubled); the backslash has no table entry
+QUOTE_TEMPLATES = ["\\'", "?\\'", "\\'?", "?\\'?", "?\\'\\'"]
+QUICK_TABLES = ["single", "overlap", "multibyte", "brackets", "nested", "twobyte", "digits", "longest3", "ignore", "leading-blank", "quote"]
 
 # string templates: '?' = free symbolic character, 'h' = symbolic hex digit, others literal
 TEMPLATES_QUICK = ["", "?", "??", "???", "[0xhh]", "?[0xhh]", "[0xhh]?", "[0xh]?", "[0xhhh]", "[0x]?", "??[0xhh]"]
@@ -39,10 +42,10 @@ TEMPLATES_THOROUGH = TEMPLATES_QUICK + ["????", "?[0xhh]?", "[0xhh][0xhh]", "??[
 
 META = {
     "bounds": {
-        "quick": "10 tables x 11 string templates (up to 3 free symbolic characters over the table alphabet + '[' ']' '0' 'x' + two unknown characters; escapes with symbolic hex digits); codec API and .text directive (top level, inherited scope, scope with its own table)",
-        "thorough": "15 tables x 17 templates (up to 4 free characters, two escapes)",
+        "quick": "11 tables x 11 string templates (up to 3 free symbolic characters over the table alphabet + '[' ']' '0' 'x' + two unknown characters; escapes with symbolic hex digits); codec API and .text directive (top level, inherited scope, scope with its own table); literals with escaped quotes (first / last / middle / doubled) over a table with an entry for the quote",
+        "thorough": "16 tables x 17 templates (up to 4 free characters, two escapes)",
     },
-    "outside": ["escapes with 1 or >= 3 hex digits (statement says NN): any behaviour accepted", "characters above 255", "strings longer than the templates", "quote / backslash / newline inside the .text literal"],
+    "outside": ["escapes with 1 or >= 3 hex digits (statement says NN): any behaviour accepted", "characters above 255", "strings longer than the templates", "backslash (other than escaping a quote) / newline inside the .text literal; tables with an entry for the backslash"],
     "oracle": "oracles/table.py: independent .tbl parser and longest-match tokeniser, executed relative to the implementation's path condition (vf/oraclex.py)",
     "stubs": ["open(): virtual .tbl files", "re: symbolic backtracking matcher generated from the tree's patterns (symx/symre.py, differential self-test at start-up)"],
     "assumptions": [],
@@ -73,6 +76,10 @@ def jobs(tier, seed):
             out.append({"id": f"directive/{tn}/{tpl}", "fam": "directive", "table": tn, "tpl": tpl})
         for tpl in (["??"] if tier == "quick" else ["?", "??", "?[0xhh]"]):
             out.append({"id": f"reload/{tn}/{tpl}", "fam": "reload", "table": tn, "tpl": tpl})
+        if tn == "quote":
+            for qi, tpl in enumerate(QUOTE_TEMPLATES):
+                out.append({"id": f"directive/{tn}/escaped-quote{qi}", "fam": "directive", "table": tn, "tpl": tpl})
+                out.append({"id": f"reload/{tn}/escaped-quote{qi}", "fam": "reload", "table": tn, "tpl": tpl})
     return out
 
 
